@@ -300,6 +300,25 @@ impl<C: ContentAddrStore> UnsealedState<C> {
     }
 }
 
+/// Verification hook H3 (observation only): read access to an unsealed state without sealing it.
+#[cfg(melstf_verif)]
+impl<C: ContentAddrStore> UnsealedState<C> {
+    /// A read-only view of this state's current contents, wrapped so that the `SealedState` accessors can be used. Nothing is sealed.
+    pub fn verif_peek(&self) -> SealedState<C> {
+        SealedState(self.clone(), None)
+    }
+
+    /// The tips accumulated so far in this block.
+    pub fn verif_tips(&self) -> CoinValue {
+        self.tips
+    }
+
+    /// The fee pool as it currently stands.
+    pub fn verif_fee_pool(&self) -> CoinValue {
+        self.fee_pool
+    }
+}
+
 /// SealedState represents an immutable state at a finalized block height.
 /// It cannot be constructed except through sealing a State or restoring from persistent storage.
 ///
